@@ -225,3 +225,5 @@ META = {
     'not_decided': 'the sampling distribution as numbers',
     'technique': 'template rules on the sampler + CFG must-pass-through (seed dominates draws) + entropy-source effect rule',
 }
+
+META['explanation'] += ' ' + "Further: loaders are read-only (no persistent cache carrying another run's flags); print_guess reaches its write on every non-debug path; uniform scale and renormalisation shared from C01/C14."
